@@ -660,6 +660,29 @@ theorem worker_shutdown_drift :
       some ({ gview exG with queue := [], worker := .running }, true) := by
   decide
 
+/-- The fuel `4 * |kw| + 12` suggested in the task is NOT sufficient in general: each eviction costs five actions
+    (`evRemove, evSub, evStore, evSpace, fill`). With six charged keys that all have to go, Layer A succeeds,
+    Layer B needs 38 actions: fuel `4 * 6 + 12 = 36` runs out, `workerFuel = 5 * 6 + 12 = 42` is enough. -/
+def exG6 : State :=
+  { exG with
+    adm := { max := 10, used := 6, kw := [(1, ⟨101, 11, 1⟩), (2, ⟨102, 12, 1⟩), (3, ⟨103, 13, 1⟩),
+                                         (4, ⟨104, 14, 1⟩), (5, ⟨105, 15, 1⟩), (6, ⟨106, 16, 1⟩)] }
+    store := [], nextId := 8, queue := [(.put 7 17 10 107 1, some 0)] }
+
+def exO6 : Oracle :=
+  { dk := [true, false, false, false, false, false, false], ids := [1, 2, 3, 4, 5, 6],
+    pops := [some 1, some 2, some 3, some 4, some 5, some 6] }
+
+example :
+    (match workerStep exG6 exO6 with
+      | .ok (g', .worked _ st _ _ ev, _) => some (st, ev.length, g'.adm.used)
+      | _ => none) = some (.accepted, 6, 10) ∧
+    (workerRun (4 * exG6.adm.kw.length + 12) { g := exG6, cl := [] } exO6).toOption.isNone = true ∧
+    (match workerRun (workerFuel { g := exG6, cl := [] }) { g := exG6, cl := [] } exO6, workerStep exG6 exO6 with
+      | .ok (b', _), .ok (g', _, _) => gview b'.g == gview g'
+      | _, _ => false) = true := by
+  decide
+
 /-! ## 3  clients -/
 
 /-- client `i` stands at its send and the command queue is full: the call blocks -/
@@ -1728,6 +1751,15 @@ example :
       | _, _ => none) = some (true, [[102]], some 2, true) := by
   decide
 
+/-- the hypotheses of `sweeper_refines` hold of the example state and the visiting order `[3, 1, 2]` -/
+example : AMap.NoDup exS.ttl ∧ ValidVisits (shardEntries exS) [3, 1, 2] ∧ exS.sweeperAlive = true := by
+  have h : shardEntries exS = [(2, 10), (1, 20), (3, 9 * nsPerSec)] := by decide
+  refine ⟨by decide, ⟨by decide, ?_⟩, rfl⟩
+  intro id
+  rw [h]
+  simp only [List.map_cons, List.map_nil, List.mem_cons, List.not_mem_nil, or_false]
+  omega
+
 /-! ## 5  every Layer A step is a Layer B run -/
 
 /-- executes a list of Layer B actions -/
@@ -2074,6 +2106,17 @@ theorem layerA_step_is_layerB_run (b : BState) (ev : Ev) (o : Oracle) (g' : Stat
     obtain ⟨rfl, _, rfl⟩ := h
     exact ⟨[.advance d], { b with g := { b.g with now := b.g.now + d } }, by simp [runActs, stepB],
       ⟨h1, h2, h3, h4, h5⟩, rfl⟩
+
+/-- the hypotheses of `layerA_step_is_layerB_run` hold of `exB` and the worker event with the two-eviction put -/
+example :
+    atRest exB ∧ Covered .worker ∧ evClient .worker < exB.cl.length ∧
+    (exB.g.worker = .running → ∀ h q, exB.g.queue ≠ (.shutdown, h) :: q) ∧
+    (match step exB.g .worker exO with | .ok (_, out, _) => isParked out == false | _ => false) = true := by
+  refine ⟨⟨rfl, rfl, ?_, rfl, rfl⟩, .worker, by decide, ?_, by decide⟩
+  · intro pc hpc
+    simp only [exB, List.mem_cons, List.not_mem_nil, or_false] at hpc
+    exact hpc
+  · intro _ h q e; cases e
 
 end B
 end Cached
